@@ -21,8 +21,6 @@ def okRec (f : Flags) (l : Text) : Option Rec :=
 /-- the records of the lines that parse, in file order -/
 def validRecs (f : Flags) (src : List Text) : List Rec := (body f src).filterMap (okRec f)
 
-theorem hdr0 : cliCsvHeaderLine = 0 := rfl
-theorem base1 : cliLineBase = 1 := rfl
 
 /-- after the header position nothing is skipped any more -/
 theorem parseAll_noskip (f : Flags) : ∀ (ls : List Text) (idx : Nat), (f.csv = true → 1 ≤ idx) →
@@ -32,8 +30,7 @@ theorem parseAll_noskip (f : Flags) : ∀ (ls : List Text) (idx : Nat), (f.csv =
   | [], idx, _ => by simp [parseAll]
   | l :: ls, idx, h => by
     obtain ⟨ih1, ih2⟩ := parseAll_noskip f ls (idx + 1) (fun c => by have := h c; omega)
-    have hskip : (f.csv && idx == cliCsvHeaderLine) = false := by
-      rw [hdr0]
+    have hskip : (f.csv && idx == 0) = false := by
       cases hc : f.csv with
       | false => rfl
       | true => have := h hc; simp; omega
@@ -93,7 +90,7 @@ theorem parseAll_top (f : Flags) (src : List Text) :
       have := parseAll_noskip f ls 1 (fun _ => Nat.le_refl 1)
       have hp : parseAll f 0 (l :: ls) = parseAll f 1 ls := by
         rw [parseAll]
-        simp [hc, hdr0]
+        simp [hc]
       rw [hp]
       simpa [validRecs, body, bodyStart, hc] using this
 
@@ -111,7 +108,7 @@ theorem mem_reported (f : Flags) (src : List Text) (n : Nat) (e : LineErr) :
     (n, e) ∈ (compileRun f src).reported ↔
       ∃ i l, (body f src)[i]? = some l ∧ n = bodyStart f + i + 1 ∧ parseLine f.delim f.keep l = .error e := by
   unfold compileRun
-  simp only [List.mem_map, base1]
+  simp only [List.mem_map]
   constructor
   · rintro ⟨⟨j, e'⟩, hm, heq⟩
     simp only [Prod.mk.injEq] at heq
@@ -135,7 +132,7 @@ theorem body_get (f : Flags) (src : List Text) (i : Nat) (h : f.csv = true → i
 /-! ### a dump compiled again -/
 
 theorem parseFreq_zero {keep : Bool} {p : Text} {fs : List Text} {n : Nat} (h : parseFreq keep p fs = .ok n) :
-    (p.length == cliWordLen && !keep) = true → n = cliWordFreq := by
+    (p.length == 1 && !keep) = true → n = 0 := by
   intro hw
   unfold parseFreq at h
   simp only [hw, if_true] at h
@@ -151,14 +148,14 @@ theorem parseLine_zeroFreq {d : Nat} {keep : Bool} {l : Text} {r : Rec} (h : par
     | error e => rw [hf] at h; cases h
     | ok n =>
       rw [hf] at h
-      cases hs : parseSyls ((tokens sylSep l).drop cliSylSkip) with
+      cases hs : parseSyls ((tokens sylSep l).drop 2) with
       | error e => rw [hs] at h; cases h
       | ok syls =>
         rw [hs] at h
         have := Except.ok.inj h
         subst this
         unfold zeroFreq
-        by_cases hw : ((trimQ f0).length == cliWordLen && !keep) = true
+        by_cases hw : ((trimQ f0).length == 1 && !keep) = true
         · simp [hw, parseFreq_zero hf hw]
         · simp [hw]
 
